@@ -104,8 +104,8 @@ func c05Check(c *core.Ctx, va verifyAdapter, in []byte, sh gen.Shape, derivation
 func flipMasks(c *core.Ctx) []byte { return []byte{0x01, 0x80, 0xff} }
 
 func runC05(c *core.Ctx) {
-	n := c.N(48, 1200)   // signed originals per (kind, type) class
-	full := c.N(4, 150)  // of those, how many get the every-byte-position sweep
+	n := c.N(48, 1200)  // signed originals per (kind, type) class
+	full := c.N(4, 150) // of those, how many get the every-byte-position sweep
 
 	type class struct {
 		name string
